@@ -25,8 +25,10 @@ type WorkerPool struct {
 	// ShutdownComplete is a WaitGroup that is used to wait for the WorkerPool to shutdown.
 	ShutdownComplete sync.WaitGroup
 
-	// isRunning indicates if the WorkerPool is running.
-	isRunning bool
+	// isRunning indicates if the WorkerPool is running. It is only written while mutex is held for writing and is read
+	// under the read lock by Submit; the dispatcher reads it without the lock (it evaluates it as the wait condition
+	// of Queue.PopOrWait, i.e. while it holds the mutex of the queue that Submit acquires under the read lock).
+	isRunning atomic.Bool
 
 	// dispatcherChan is the channel that is used to dispatch tasks to the workers.
 	dispatcherChan chan *Task
@@ -67,10 +69,10 @@ func (w *WorkerPool) Start() *WorkerPool {
 	w.mutex.Lock()
 	defer w.mutex.Unlock()
 
-	if !w.isRunning {
+	if !w.isRunning.Load() {
 		w.ShutdownComplete.Wait()
 
-		w.isRunning = true
+		w.isRunning.Store(true)
 
 		w.startDispatcher()
 		w.startWorkers()
@@ -81,7 +83,12 @@ func (w *WorkerPool) Start() *WorkerPool {
 
 // Submit submits a new task to the WorkerPool.
 func (w *WorkerPool) Submit(workerFunc func(), optStackTrace ...string) {
-	if !w.IsRunning() {
+	// the read lock is held until the task is counted and queued: Shutdown can not stop the pool in between (otherwise
+	// the dispatcher could terminate without ever seeing the task)
+	w.mutex.RLock()
+	defer w.mutex.RUnlock()
+
+	if !w.isRunning.Load() {
 		if w.optPanicOnSubmitAfterShutdown {
 			panic(fmt.Sprintf("worker pool '%s' is not running", w.Name))
 		}
@@ -132,10 +139,7 @@ func (w *WorkerPool) DebounceFunc() (debounce func(workerFunc func(), optStackTr
 
 // IsRunning returns true if the WorkerPool is running.
 func (w *WorkerPool) IsRunning() bool {
-	w.mutex.RLock()
-	defer w.mutex.RUnlock()
-
-	return w.isRunning
+	return w.isRunning.Load()
 }
 
 // WorkerCount returns the number of workers that are used to execute tasks.
@@ -148,8 +152,8 @@ func (w *WorkerPool) Shutdown() *WorkerPool {
 	w.mutex.Lock()
 	defer w.mutex.Unlock()
 
-	if w.isRunning {
-		w.isRunning = false
+	if w.isRunning.Load() {
+		w.isRunning.Store(false)
 
 		for range w.workerCount {
 			w.shutdownSignal <- struct{}{}
